@@ -208,6 +208,9 @@ func (fr *frame) loopHead(l *Loop, entry *state, phiIn map[*ssa.Phi]T) *state {
 			oldT := vc.heapGet(entry, h)
 			n := vc.declareConst(h+"_h", srt)
 			st.heap[h] = n
+			if inv := vc.ghostInvariant(h, n); inv != "" {
+				vc.assume("true", inv)
+			}
 			// automatic frame: memory that existed at function entry and is not in the modifies
 			// clause keeps its contents (guaranteed by the frame.* obligations of this unit).
 			if strings.HasPrefix(h, "Glob_") || strings.HasPrefix(h, "G_") || strings.HasPrefix(h, "Seen_") {
@@ -220,6 +223,9 @@ func (fr *frame) loopHead(l *Loop, entry *state, phiIn map[*ssa.Phi]T) *state {
 			cond += ")"
 			if !fr.modAll {
 				vc.assume("true", fmt.Sprintf("(forall ((r Int)) (! (=> %s (= (select %s r) (select %s r))) :pattern ((select %s r))))", cond, n, oldT, n))
+				scond := strings.ReplaceAll(cond, " r)", " (s_arr s))")
+				scond = strings.ReplaceAll(scond, " r ", " (s_arr s) ")
+				vc.atOthersUnchanged(h, n, oldT, scond)
 			}
 		}
 	}
